@@ -294,10 +294,11 @@ PROPS = {
         ],
     },
     "C03": {
-        "lean_modules": ["TableauVerif.Props.C03"],
-        "oracles": ["c03.parse"],
+        "lean_modules": ["TableauVerif.Props.C03", "TableauVerif.Props.C03Frac"],
+        "oracles": ["c03.parse", "c03.frac", "c03.cmp"],
         "streams": [
             ("corr.xproto.parseFieldValue", 60000, 1500000),
+            ("corr.xproto.fraction", 30000, 400000),
         ],
         "assumptions": [
             "modelled: ParseFieldValue for the int32/uint32/int64/uint64 families and bool (strconv.ParseInt/ParseUint/ParseBool and the decimal subset of ParseFloat transliterated); "
